@@ -40,7 +40,11 @@ impl FieldAccess {
 
 impl ReturnType for FieldAccess {
     fn return_type(&self) -> crate::variable::Type {
-        self.var.return_type().field_type(&self.ident).unwrap()
+        // the operand is a struct, or - once a constant condition was folded away - of type `!`
+        self.var
+            .return_type()
+            .field_type(&self.ident)
+            .unwrap_or(crate::variable::Type::Never)
     }
 }
 
